@@ -130,6 +130,19 @@ def make_volume(path, spec, rng):
                     int(rng.integers(1, 6)) * spec.get("label_step", 1)
             chans.append(c)
         a = np.stack(chans, axis=-1) if len(shape) == 4 else chans[0]
+    elif kind == "supervoxel":
+        # over-segmentation: about 60 % of the voxels carry a label of their own, the rest a few
+        # frequent labels - a compressed_segmentation block (8x8x8) holds > 256 distinct labels of
+        # uneven frequency (16-bit codes)
+        n = int(np.prod(shape[:3]))
+        own = rng.random(n) < 0.6
+        # the frequent labels lie below, between and above the voxel-own labels, and their
+        # frequencies are not ordered like their values
+        labels = np.array([3, 1000 + n // 3, 7, 1000 + 2 * n, 1000 + n // 2, 1000 + 3 * n, 1])
+        frequent = rng.choice(labels, size=n, p=[0.06, 0.3, 0.2, 0.04, 0.1, 0.25, 0.05])
+        a = np.where(own, 2 * np.arange(n) + 1001, frequent).astype(np.int64).reshape(shape[:3])
+        if len(shape) == 4:
+            a = np.stack([a + 7 * k for k in range(shape[3])], axis=-1)
     elif kind == "ramp":
         idx = np.indices(shape[:3]).sum(axis=0)
         a = (idx * 7 + rng.integers(0, 3, size=shape[:3])) % (hi + 1)
